@@ -1,5 +1,6 @@
 import RactorModel.Extracted
 import RactorModel.Lemmas.ExitRaceLive
+import RactorModel.Lemmas.WaitForms
 
 /-!
 # C06 — shutdown waits are accurate and never miss the wake-up
@@ -141,6 +142,191 @@ theorem abandon_changes_nothing (g : G) (i : Nat) :
         · first | rfl | (simp only [notifyOne]; split <;> rfl)
         · rfl
 
+/-! ### Round 4: every wait form, and the supervisor-side children wrappers (`Model/WaitForms.lean`)
+
+Any number of actors ("kids"), each with its own complete exit machine; any number of concurrent
+calls of `wait(None|Some t)`, `stop_and_wait`, `kill_and_wait`, `drain_and_wait` (each: a send step
+that may fail, then `wait()`, which a timer may abandon) and join-handle awaits; racers using the
+one-shot ports; `stop_children_and_wait` / `drain_children_and_wait` as sets of such calls whose
+results are discarded. All schedules. -/
+
+/-- (every wait form) A call that returned `Ok(())` — whichever form, with or without a timeout,
+started before, during or after the exit — recorded a fully stopped actor at the moment of its
+return (`snap = true`: the oracle `formOk`), and the actor is fully stopped in the current state as
+well: status `Stopped`, pid and name unregistered, group monitors and memberships gone, children
+terminated, supervisor notified, unlinked, `post_stop` returned on a graceful exit. -/
+theorem ok_means_fully_stopped (x0 : X) (h0 : XInitial x0) (sched : List XTid) :
+    ∀ c ∈ (xrun x0 sched).callers, ∀ snap, c.pc = .done (.ok snap) →
+      snap = true ∧ ∃ kid, (xrun x0 sched).kids[c.kid]? = some kid ∧
+        kid.fullyStopped = true ∧ kid.g.sh.status = stStopped ∧
+        kid.g.sh.flags.complete kid.g.exiter.hasPostStop = true := by
+  intro c hc snap hs
+  have I := xinv_run _ sched (xinv_initial x0 h0)
+  have hlt := I.has c hc (by rw [hs]; simp)
+  obtain ⟨kid, hk⟩ : ∃ kid, (xrun x0 sched).kids[c.kid]? = some kid :=
+    ⟨_, List.getElem?_eq_getElem hlt⟩
+  have hok := (I.callers c hc kid hk).ok snap hs
+  have hi := I.kids kid (List.mem_of_getElem? hk)
+  have hf := fullyStopped_of_stage hi hok.2
+  have hf' := hf
+  simp only [Kid.fullyStopped, okNow, snapshotOk, Bool.and_eq_true, beq_iff_eq] at hf'
+  exact ⟨hok.1, kid, hk, hf, hf'.1, hf'.2⟩
+
+/-- The run-time oracle of the wait forms holds of every finished call of the model. -/
+theorem form_oracle_holds (x0 : X) (h0 : XInitial x0) (sched : List XTid) :
+    ∀ c ∈ (xrun x0 sched).callers, ∀ r, c.pc = .done r → formOk r = true := by
+  intro c hc r hr
+  cases r with
+  | ok snap => exact (ok_means_fully_stopped x0 h0 sched c hc snap hr).1
+  | sendErr => rfl
+  | timeout => rfl
+
+/-- A call whose send step failed (`stop_and_wait` on an actor whose one-shot stop port was already
+used or whose port set is gone; `drain_and_wait` whose marker could not be enqueued) returned the
+error WITHOUT waiting: its request was not accepted, and nothing is claimed about the actor. -/
+theorem send_error_means_not_accepted (x0 : X) (h0 : XInitial x0) (sched : List XTid) :
+    ∀ c ∈ (xrun x0 sched).callers, c.pc = .done .sendErr → c.accepted = false := by
+  intro c hc hs
+  have I := xinv_run _ sched (xinv_initial x0 h0)
+  have hlt := I.has c hc (by rw [hs]; simp)
+  exact (I.callers c hc _ (List.getElem?_eq_getElem hlt)).err hs
+
+/-- (children wrappers, what holds) When `stop_children_and_wait` / `drain_children_and_wait` has
+returned, every task of its `JoinSet` is done, and every child of the snapshot whose stop / drain
+request was accepted by THIS call and whose wait did not time out is fully stopped. -/
+theorem children_wrapper_accepted_children_stopped (x0 : X) (h0 : XInitial x0) (sched : List XTid) :
+    ∀ wr ∈ (xrun x0 sched).wrappers, wr.returned = true →
+      ∀ j ∈ wr.callers, ∀ c, (xrun x0 sched).callers[j]? = some c →
+        c.isDone = true ∧
+        (c.accepted = true → c.pc ≠ .done .timeout →
+          ∃ kid, (xrun x0 sched).kids[c.kid]? = some kid ∧ kid.fullyStopped = true) := by
+  intro wr hwr hret j hj c hc
+  have I := xinv_run _ sched (xinv_initial x0 h0)
+  have hd := I.wrappers wr hwr hret j hj c hc
+  refine ⟨hd, fun hacc hnt => ?_⟩
+  have hmem := List.mem_of_getElem? hc
+  cases hpc : c.pc with
+  | send => simp [Caller.isDone, hpc] at hd
+  | waiting => simp [Caller.isDone, hpc] at hd
+  | done r =>
+    cases r with
+    | ok snap =>
+      obtain ⟨_, kid, hk, hf, _⟩ := ok_means_fully_stopped x0 h0 sched c hmem snap hpc
+      exact ⟨kid, hk, hf⟩
+    | sendErr =>
+      have := send_error_means_not_accepted x0 h0 sched c hmem hpc
+      rw [this] at hacc; cases hacc
+    | timeout => exact absurd hpc hnt
+
+/-- The wrapper oracle (`wrapperChildOk`) holds of every child of a returned wrapper. -/
+theorem wrapper_oracle_holds (x0 : X) (h0 : XInitial x0) (sched : List XTid) :
+    ∀ wr ∈ (xrun x0 sched).wrappers, wr.returned = true →
+      ∀ j ∈ wr.callers, ∀ c kid, (xrun x0 sched).callers[j]? = some c →
+        (xrun x0 sched).kids[c.kid]? = some kid →
+        wrapperChildOk c.accepted (c.pc == .done .timeout) kid.fullyStopped = true := by
+  intro wr hwr hret j hj c kid hc hk
+  have h := (children_wrapper_accepted_children_stopped x0 h0 sched wr hwr hret j hj c hc).2
+  simp only [wrapperChildOk, Bool.or_eq_true, Bool.not_eq_true', beq_iff_eq]
+  cases hacc : c.accepted
+  · exact Or.inl (Or.inl rfl)
+  · by_cases ht : c.pc = .done .timeout
+    · exact Or.inl (Or.inr ht)
+    · obtain ⟨kid', hk', hf⟩ := h hacc ht
+      rw [hk] at hk'; cases hk'
+      exact Or.inr hf
+
+/-- witness: one running child whose one-shot stop port a racer has used (`stop()` issued, the
+child still in its handler: its exit sequence has not begun), then `stop_children_and_wait` -/
+def strandedChild : X :=
+  { kids := [{ g := init true [] [] 1 }],
+    callers := [{ kid := 0, form := .stopWait, w := 0 }],
+    wrappers := [{ callers := [0] }] }
+
+/-- (children wrappers, what does NOT hold — outside C06's claim) `stop_children_and_wait` can
+return while a child that had already been asked to stop by someone else is still `Running`: the
+one-shot stop port refuses the second stop, the inner `stop_and_wait` returns
+`Err(Messaging(ChannelClosed))` BEFORE waiting, and the wrapper discards that result. C06 speaks of
+the wait forms "when they return Ok" — the inner call returned `Err`, the wrapper returns `()`. The
+full-strength statement "when the wrapper returns every child of the snapshot is stopped" is
+therefore false of the code; this is its negation on a concrete schedule. -/
+theorem children_wrapper_may_return_with_running_child :
+    let x := xrun strandedChild [.stop 0, .call 0, .wrap 0]
+    XInitial strandedChild ∧
+    x.wrappers.map (·.returned) = [true] ∧
+    x.callers.map (fun c => (c.pc, c.accepted)) = [(.done .sendErr, false)] ∧
+    x.kids.map (fun k => (k.g.sh.status, k.fullyStopped)) = [(2, false)] := by
+  refine ⟨⟨?_, ?_, ?_⟩, by decide, by decide, by decide⟩
+  · intro k hk
+    simp only [strandedChild, List.mem_singleton] at hk
+    subst hk
+    exact initial_init true [] [] 1 rfl
+  · intro c hc
+    simp only [strandedChild, List.mem_singleton] at hc
+    subst hc; exact ⟨rfl, rfl⟩
+  · intro w hw
+    simp only [strandedChild, List.mem_singleton] at hw
+    subst hw; rfl
+
+/-- `drain_children_and_wait` does wait for a child that somebody else already drained: a second
+`drain()` is accepted (`DRAIN_MARKER_SENT` already set ⇒ `Ok`), so the inner call goes on to
+`wait()`. Same child, racer = an earlier drain (status `Draining`, marker sent): the wrapper cannot
+return before the child's exit has finished. -/
+def drainingG (drainers : Nat) : G := { (init true [] [] 1 drainers) with sh := { status := 4 } }
+
+example :
+    let x0 : X := { kids := [{ g := drainingG 1, ports := { marker := true } }],
+                    callers := [{ kid := 0, form := .drainWait, w := 0, d := 0 }],
+                    wrappers := [{ callers := [0] }] }
+    (xrun x0 [.call 0, .call 0, .call 0, .wrap 0]).wrappers.map (·.returned) = [false] ∧
+    (xrun x0 ([.call 0, .call 0, .call 0, .wrap 0] ++ List.replicate 16 (.kid 0 .e) ++ [.call 0, .wrap 0])).wrappers.map
+      (·.returned) = [true] := by decide
+
+/-- (timeout) A timer that fires — `Timeout::poll` polls the inner future once more and drops it if
+it is still pending — changes neither the status, nor any clean-up flag, nor the exiter, nor the
+ports of the actor; and the call then reports `Ok` (that last poll completed: fully stopped, by
+`ok_means_fully_stopped`) or `Timeout`, never anything else. -/
+theorem timeout_has_no_effect (kid : Kid) (c : Caller) (h : c.isDone = false) :
+    ((timeoutStep kid c).1.g.sh.status = kid.g.sh.status ∧ (timeoutStep kid c).1.g.sh.flags = kid.g.sh.flags ∧
+      (timeoutStep kid c).1.g.exiter = kid.g.exiter ∧ (timeoutStep kid c).1.ports = kid.ports) ∧
+    ((timeoutStep kid c).2 = c ∨ (∃ b, (timeoutStep kid c).2.pc = .done (.ok b)) ∨
+      (timeoutStep kid c).2.pc = .done .timeout) :=
+  ⟨timeoutStep_keeps kid c, timeoutStep_result kid c h⟩
+
+/-- non-vacuity: four children — running, already asked to stop by a racer, draining, already
+stopped — and one `stop_children_and_wait(None, Some t)` over all of them. Child 0 is stopped by
+this call and awaited; child 1's stop is refused (`sendErr`), it is still running when the wrapper
+returns; child 2 (draining) accepts the stop, its wait times out; child 3 had already exited (port
+set gone): `sendErr`. -/
+def fourChildren : X :=
+  { kids := [{ g := init true [] [] 1 }, { g := init true [] [] 1 },
+             { g := drainingG 0, ports := { marker := true } },
+             { g := init true [] [] 1 }],
+    callers := [{ kid := 0, form := .stopWait, timed := true }, { kid := 1, form := .stopWait, timed := true },
+                { kid := 2, form := .stopWait, timed := true }, { kid := 3, form := .stopWait, timed := true }],
+    wrappers := [{ callers := [0, 1, 2, 3] }] }
+
+example :
+    let x := xrun fourChildren
+      (List.replicate 17 (.kid 3 .e) ++ [.stop 1, .call 0, .call 1, .call 2, .call 3, .call 0, .call 0, .call 2, .call 2]
+        ++ List.replicate 16 (.kid 0 .e) ++ [.wrap 0, .timeout 2, .wrap 0, .call 0, .wrap 0])
+    x.wrappers.map (·.returned) = [true] ∧
+    x.callers.map (fun c => (c.pc, c.accepted))
+      = [(.done (.ok true), true), (.done .sendErr, false), (.done .timeout, true), (.done .sendErr, false)] ∧
+    x.kids.map (fun k => (k.g.sh.status, k.fullyStopped)) = [(6, true), (2, false), (4, false), (6, true)] := by
+  decide
+
+/-- `kill_and_wait` ignores the send error: on an actor whose signal port was already used it still
+waits, and returns `Ok` once the actor has stopped; a join handle completes only when the exit
+sequence has finished. -/
+example :
+    let x0 : X := { kids := [{ g := init false [] [] 1, ports := { signal := false } }],
+                    callers := [{ kid := 0, form := .killWait, w := 0 }, { kid := 0, form := .join }] }
+    (xrun x0 ([.call 0, .call 1, .call 1, .call 0, .call 0] ++ List.replicate 13 (.kid 0 .e) ++ [.call 1])).callers.map
+        (fun c => (c.pc, c.accepted)) = [(.waiting, false), (.waiting, false)] ∧
+    (xrun x0 ([.call 0, .call 1, .call 1, .call 0, .call 0] ++ List.replicate 14 (.kid 0 .e) ++ [.call 1, .call 0])).callers.map
+        (fun c => (c.pc, c.accepted)) = [(.done (.ok true), false), (.done (.ok true), false)] := by
+  decide
+
 /-! ### Source guards (E-SRC) -/
 
 /-- statement order of `ActorLifecycleGuard::cleanup` -/
@@ -214,3 +400,10 @@ end C06
 #print axioms C06.src_set_status_order
 #print axioms C06.src_wait_and_notify
 #print axioms C06.src_status_discriminants
+#print axioms C06.ok_means_fully_stopped
+#print axioms C06.form_oracle_holds
+#print axioms C06.send_error_means_not_accepted
+#print axioms C06.children_wrapper_accepted_children_stopped
+#print axioms C06.wrapper_oracle_holds
+#print axioms C06.children_wrapper_may_return_with_running_child
+#print axioms C06.timeout_has_no_effect
